@@ -30,7 +30,7 @@ ASSUMPTIONS = ["bounded liveness: once the last job is enqueued and no fault is 
                "10 s + 2 s x jobs (+ injected stall time) of virtual time",
                "no pre-emption inside semantiva.core / pipeline execution (a job run is one scheduling step)"]
 REQUIRED_PROBES = ["failing_job", "slow_job", "multi_worker", "late_worker", "batch_ge_10", "fire_and_forget_job_mixed_in", "two_failing_jobs",
-                   "same_yaml_path_rewritten", "failing_job_with_two_argument_exception", "job_enqueued_from_done_callback", "worker_stopped_and_replaced_mid_batch", "worker_with_bounded_pool_executor", "job_context_with_protocol_like_key"]
+                   "same_yaml_path_rewritten", "failing_job_with_two_argument_exception", "job_enqueued_from_done_callback", "worker_stopped_and_replaced_mid_batch", "worker_with_bounded_pool_executor", "job_context_with_protocol_like_key", "job_whose_configuration_cannot_be_loaded", "pending_future_cancelled_by_caller"]
 CONFIG = {
     "quick": {"runs": 2500, "budget_s": 240, "timeout_s": 120, "per_fork": 4},
     "thorough": {"runs": 150000, "budget_s": 1600, "timeout_s": 180, "per_fork": 6},
@@ -65,7 +65,11 @@ def generate(rng: random.Random, tier: str, seed: int) -> dict:
             # legal user keys that look like protocol fields: they are the job's own data and must come back untouched
             job["context"] = dict(job["context"], **{rng.choice(["error", "status", "result", "metadata"]): rng.choice([0.125, "error", "failed", 1.0])})
             job["protocol_like_key"] = True
-        if j in fail_set:
+        if j in fail_set and rng.random() < 0.15:
+            # the job itself cannot be loaded: a YAML path that does not exist, or a configuration that is not a node list
+            job["fail"] = [rng.choice(["yaml_path_missing", "config_not_a_node_list"]), 0]
+            job["unloadable"] = job["fail"][0]
+        elif j in fail_set:
             fs = [f for f in gen.applicable_failures(base) if f[0] in ("unresolvable", "type_gate", "undeclared_op", "undeclared_ctx", "unknown_param")]
             if rng.random() < 0.25 and base["truth"][-1]["out"] == "float":
                 # the pipeline raises a domain exception whose constructor takes two arguments
@@ -90,13 +94,15 @@ def generate(rng: random.Random, tier: str, seed: int) -> dict:
         a2 = gen.gen_pipeline(rng, max_nodes=3, allow_file_sink=False)
         yaml_pair = [{"nodes": a1["nodes"], "context": a1["context"], "init_data": a1["init_data"]},
                      {"nodes": a2["nodes"], "context": a2["context"], "init_data": a2["init_data"]}]
+    # the caller gives up on one job: it cancels that job's pending Future right after enqueuing it (legal use of the Future API)
+    cancel_at = rng.randrange(njobs) if (njobs >= 2 and rng.random() < 0.1) else None
     nworkers = rng.randint(1, 4)
     # worker churn: one worker is told to stop at some instant (scale-down / rolling restart), a replacement starts later
     churn = {"victim": rng.randrange(nworkers), "at": rng.choice([0.0, 0.02, 0.1, 0.3, 1.0]), "replacement_delay": rng.choice([0.0, 0.05, 0.5])} \
         if rng.random() < 0.2 else None
     # the worker's executor: the default sequential one, or a bounded asynchronous pool (1-2 threads) shared by nothing else
     pool = rng.choice([1, 1, 2]) if rng.random() < 0.2 else None
-    return {"churn": churn, "pool": pool, "jobs": jobs, "workers": [{"start_delay": rng.choice([0.0, 0.0, 0.0, 0.4, 1.5]), "poll": rng.choice([0.1, 0.1, 0.05, 0.2])}
+    return {"cancel_at": cancel_at, "churn": churn, "pool": pool, "jobs": jobs, "workers": [{"start_delay": rng.choice([0.0, 0.0, 0.0, 0.4, 1.5]), "poll": rng.choice([0.1, 0.1, 0.05, 0.2])}
                                       for _ in range(nworkers)],
             "yaml_pair": yaml_pair, "chained": chained, "strategy": rng.choice(FAIR_STRATEGIES), "sched_seed": rng.getrandbits(48), "choices": None}
 
@@ -175,6 +181,8 @@ def SimPoolExecutor(sched, n, stop, tag):
 
 
 def _expected(job: dict, w) -> dict:
+    if job.get("unloadable"):
+        return {"ok": False, "exc_type": None, "exc_msg": None}      # loading the job fails; any exception is this job's own
     p = harness.make_pipeline(job["nodes"])
     return harness.outcome_of(lambda: p.process(harness.make_payload(job)))
 
@@ -267,13 +275,22 @@ def execute(sc: dict, seed: int) -> dict:
                     data = None if job["init_data"] is None else FloatDataType(float(job["init_data"]))
                     ctx_arg = None if (not job["context"] and job.get("ctx_none")) else ContextType(copy.deepcopy(job["context"]))
                     cfg_arg = copy.deepcopy(job["nodes"])
-                    if job.get("as_yaml"):
+                    if job.get("unloadable") == "yaml_path_missing":
+                        cfg_arg = os.path.join(w.sandbox, f"no_such_job_{i}.yaml")
+                        stats["fault.job_config_unloadable"] = stats.get("fault.job_config_unloadable", 0) + 1
+                    elif job.get("unloadable") == "config_not_a_node_list":
+                        cfg_arg = [copy.deepcopy(job["nodes"][0]), "this entry is not a node mapping"]
+                        stats["fault.job_config_unloadable"] = stats.get("fault.job_config_unloadable", 0) + 1
+                    elif job.get("as_yaml"):
                         harness.write_cli_config({"nodes": job["nodes"]}, f"job_{i}.yaml", executor=False)
                         cfg_arg = os.path.join(w.sandbox, f"job_{i}.yaml")
                         stats["probe.job_given_as_yaml_path"] = stats.get("probe.job_given_as_yaml_path", 0) + 1
                     futures[i] = orch.enqueue(cfg_arg, data=data, context=ctx_arg,
                                               return_future=not job.get("no_future"))
                     sched.log("enqueue", i)
+                    if sc.get("cancel_at") == i and futures[i] is not None:
+                        if futures[i].cancel():
+                            stats["fault.future_cancelled_by_caller"] = 1
                     if i == 0 and sc.get("chained") and futures[0] is not None:
                         # a follow-up job is enqueued from the first job's done-callback (runs on whichever task completes it)
                         def _chain(_f, cj=sc["chained"]):
@@ -331,6 +348,9 @@ def execute(sc: dict, seed: int) -> dict:
                         viols.append(oracles.V("result", "future_returned_without_request", f"job {i}"))
                     picked += 1
                     continue
+                if fut is not None and fut.cancelled():
+                    picked += 1         # the caller withdrew its interest in this job; every OTHER job is still owed its result
+                    continue
                 if fut is None or not fut.done():
                     # "A job whose pipeline raises completes its Future exceptionally instead of leaving the caller waiting forever."
                     # / bounded liveness for ordinary jobs
@@ -343,7 +363,7 @@ def execute(sc: dict, seed: int) -> dict:
                 if failing:
                     if exc is None:
                         viols.append(oracles.V("result", "failing_job_completed_normally", f"job {i} should fail with {exp['exc_type']} but future result={fut.result()!r}"))
-                    elif type(exc).__name__ != exp["exc_type"] or str(exc) != exp["exc_msg"]:
+                    elif exp["exc_type"] is not None and (type(exc).__name__ != exp["exc_type"] or str(exc) != exp["exc_msg"]):
                         # "with that job's own result ... no cross-talk": the failure reported must be this job's failure
                         viols.append(oracles.V("result", "failing_job_got_foreign_exception", f"job {i} fails with {exp['exc_type']}: {exp['exc_msg']!r} when run directly, "
                                                f"its future carries {type(exc).__name__}: {str(exc)!r}"))
@@ -397,6 +417,10 @@ def execute(sc: dict, seed: int) -> dict:
         if any(j.get("fail") for j in sc["jobs"]):
             stats["probe.failing_job"] = 1
             stats["fault.failing_job"] = 1
+        if stats.get("fault.job_config_unloadable"):
+            stats["probe.job_whose_configuration_cannot_be_loaded"] = 1
+        if stats.get("fault.future_cancelled_by_caller"):
+            stats["probe.pending_future_cancelled_by_caller"] = 1
         if any(j.get("protocol_like_key") for j in sc["jobs"]):
             stats["probe.job_context_with_protocol_like_key"] = 1
         if any(j.get("slow") for j in sc["jobs"]):
